@@ -352,7 +352,9 @@ def svdtf(source, target):
     U, S, Vh = torch.linalg.svd(M)
     R = U @ Vh
     mask = (R.det() + 1).abs() < 1e-6
-    R[mask] = - R[mask]
+    D = torch.ones_like(S)
+    D[..., -1] = 1 - 2 * mask.to(S.dtype)
+    R = (U * D.unsqueeze(-2)) @ Vh
     t = ctntarget.mT - R @ ctnsource.mT
     T = torch.cat((R, t), dim=-1)
     return mat2SE3(T, check=False)
